@@ -246,7 +246,7 @@ def expand(D, accs, name, lname, prefix=""):
     return out
 
 
-def check_structs(backend, D, out, violate, stats, lib_rs, disabled):
+def check_structs(backend, D, out, violate, stats, lib_rs, disabled, goals):
     ext = ".mjs" if backend == "js" else ".g.dart"
     accs, texts = {}, {}
     for name in ("S1", "S2", "S3"):
@@ -259,8 +259,18 @@ def check_structs(backend, D, out, violate, stats, lib_rs, disabled):
         violate(f"direct:backend-struct:{backend}", {"backend": backend, "what": what, "lib_rs": lib_rs})
     for name, text in texts.items():
         d = D.d[name]
+        fidx = {fn: i for i, (fn, _) in enumerate(d["fields"])}
         for slot in range(d["n"]):
             ln = G.DEF_LT[name][slot]
+            # the accessor as generated, literally, against Lifetimes/Struct.v
+            ents, okp = [], True
+            for e in accs[name].get(ln, []):
+                if e[0] == "field" and e[1] in fidx: ents.append(f"AField {fidx[e[1]]}")
+                elif e[0] == "nested" and e[1] in fidx and d["fields"][fidx[e[1]]][1][0] == "struct" and e[2] in G.DEF_LT[d["fields"][fidx[e[1]]][1][2]]:
+                    ents.append(f"ANested {fidx[e[1]]} {G.DEF_LT[d['fields'][fidx[e[1]]][1][2]].index(e[2])}")
+                else: okp = False
+            if okp:
+                goals.append(f"agree_accessor {G.c_defs(D)} {G.TID[name]} {slot} {G.c_list(ents)}")
             want = leaves(D, name, slot)
             if any(t[0] == "struct" and t[2] not in texts for _, t in d["fields"]):
                 continue
@@ -361,8 +371,9 @@ def check_kotlin(D, ms, out, violate, stats, lib_rs, disabled):
                             f"{key}Edges = {got} does not contain {w}", "signature": G.r_method(m).strip(), "lib_rs": lib_rs})
 
 
-def run(ctx, bridges, violate):
+def run(ctx, bridges, violate, goals=None):
     import collections
+    goals = goals if goals is not None else []
     stats = collections.Counter()
     root = os.path.join(BUILD, "e2e", "c04")
     shutil.rmtree(root, ignore_errors=True)
@@ -389,7 +400,7 @@ def run(ctx, bridges, violate):
                         continue
                     stats[f"{backend}_methods"] += 1
                     check_method(backend, D, m, body, violate, stats, G.rust_source(D, [m]))
-                check_structs(backend, D, out, violate, stats, lib_rs, disabled)
+                check_structs(backend, D, out, violate, stats, lib_rs, disabled, goals)
             elif backend == "nanobind":
                 check_nanobind(D, ms, out, violate, stats, lib_rs, disabled)
             else:
